@@ -45,7 +45,9 @@ def argSites : List (String × String) :=
    ("frontend/backend.py", "BackendRegistryState._register"), ("frontend/backend.py", "BackendRegistryState._get_by_name"),
    ("frontend/backend.py", "BackendRegistryState._get"),
    ("adapter/einx_from_namedtensor.py", "_parse_op"), ("adapter/einx_from_namedtensor.py", "op.inner"),
-   ("namedtensor/solve.py", "solve"), ("namedtensor/stage2/solve.py", "_input_expr")]
+   ("namedtensor/solve.py", "solve"), ("namedtensor/stage2/solve.py", "_input_expr"),
+   -- the tensor-count check of the fixed-arity numpy elementwise wrappers ("expects 2 input tensors, but 3 were given")
+   ("adapter/numpy/classical_from_numpy.py", "elementwise.inner")]
 
 structure Raised where
   mro : List String
